@@ -440,7 +440,7 @@ def artefact_case(case, rec=None):
                 if dr in mem and sr in mem and f["src"] + f["length"] <= len(mem[sr]) and f["dst"] + f["length"] <= len(mem[dr]) and not isinstance(mem[dr], bytes):
                     mem[dr][f["dst"]: f["dst"] + f["length"]] = bytes(mem[sr][f["src"]: f["src"] + f["length"]])
                 continue
-            so = by_out.get(lab.get("op_name"))
+            so = by_out.get(lab.get("op_name")) or by_out.get(lab.get("ofm"))  # (rewrites may rename the operator: a 1x1 convolution turned into a fully connected one gets "_fc")
             if c.kind not in ("conv", "depthwise") or so is None or lab.get("ofm_box") is None:
                 continue
             want_kind = {"CONV_2D": "Conv2DBias", "DEPTHWISE_CONV_2D": "DepthwiseConv2DBias", "FULLY_CONNECTED": "FullyConnected"}[so["code"]]
@@ -487,7 +487,7 @@ def artefacts(ctx, arg, rec):
     from runner import run_hypothesis
 
     shard, n = arg
-    prof = ["convs", "exact", "exact16", "cascade"][shard % 4]
+    prof = ["convs", "exact", "exact16", "cascade", "head", "convs", "head", "exact16"][shard % 8]
     strat = e2e.case_strategy(prof, max_ops=4, big=prof == "cascade", small_arena=prof == "cascade", dtypes=("int16",) if prof == "exact16" else ("int8", "int8", "uint8", "int16"))
     run_hypothesis(rec, strat, artefact_case, n, sub_seed(ctx.seed, PROPERTY, "artefact", shard))
 
